@@ -34,7 +34,7 @@ orders of the same clauses both succeed, consume everything up to `End`, and ret
 locations (permuting clauses moves every token, so locations cannot agree).
 
 Full statement (not proved): `IsClause` holds for every segment `kw ++ tokens(e)` where `e` is an expression — i.e.
-prefix determinism of `parseExpr`. Proved instances: `isClause_limit`, `isClause_join`, `isClause_where_ident` below. -/
+prefix determinism of `parseExpr`. Proved instances: `limit_is_a_clause`, `join_is_a_clause`, `where_ident_is_a_clause` below. -/
 theorem clause_order_invariance_partial (T : PrecTables) (fuel0 : Nat) (final1 final2 : PSt)
     (h1 : final1.cur.tok = .eof) (h2 : final2.cur.tok = .eof)
     (segs1 segs2 : List (List PTok × ClauseVal)) (hne : segs1 ≠ [])
@@ -58,6 +58,13 @@ theorem join_is_a_clause (T : PrecTables) (l : Fin 13 → Loc) (outer : Bool) (u
        ⟨l 10, .ident c⟩, ⟨l 11, .op (.single '.')⟩, ⟨l 12, .ident d⟩]
       (.join { joinerTable := u, joinerFilename := f, leftTable := a, leftColumn := b, rightTable := c,
                rightColumn := d, isOuter := outer }) := isClause_join T l outer u f a b c d
+
+/-- `WHERE x` / one identifier is a clause whatever follows, for every table that gives the clause keywords, `;` and
+`End` no precedence (`inertBoundary_code`: true of the code's tables): the simplest instance of the expression case,
+showing why the value can only be the same *up to locations* — the column node carries the location of the token
+that follows it -/
+theorem where_ident_is_a_clause (T : PrecTables) (hT : InertBoundary T) (l1 l2 : Loc) (x : List Char) :
+    IsClause T 4 [⟨l1, .kw .where⟩, ⟨l2, .ident x⟩] (.filter (.column ⟨0, 0⟩ x)) := isClause_where_ident T hT l1 l2 x
 
 /-! ### trailing semicolon -/
 
@@ -188,5 +195,25 @@ example (T : PrecTables) (l : Fin 13 → Loc) (l1 l2 e1 e2 : Loc) :
     (by intro p hp; simp at hp; rcases hp with rfl | rfl; exact hl; exact hj)
     (by intro p hp; simp at hp; rcases hp with rfl | rfl; exact hj; exact hl)
     (by simp [ClauseVal.kind]) 2 (by simp)
+
+/-- `WHERE x LIMIT 5` and `LIMIT 5 WHERE x` give the same slots (up to locations), with the code's tables -/
+example (l1 l2 l3 l4 e1 e2 : Loc) :
+    ∃ c1 c2,
+      clauseLoop PrecTables.code 6 {} (PSt.prependAll
+        [[⟨l1, .kw .where⟩, ⟨l2, .ident ['x']⟩], [⟨l3, .kw .limit⟩, ⟨l4, .int 5⟩]]
+        { cur := ⟨e1, .eof⟩, rest := [] }) = .ok c1 { cur := ⟨e1, .eof⟩, rest := [] } ∧
+      clauseLoop PrecTables.code 6 {} (PSt.prependAll
+        [[⟨l3, .kw .limit⟩, ⟨l4, .int 5⟩], [⟨l1, .kw .where⟩, ⟨l2, .ident ['x']⟩]]
+        { cur := ⟨e2, .eof⟩, rest := [] }) = .ok c2 { cur := ⟨e2, .eof⟩, rest := [] } ∧ c1.Same c2 := by
+  have hw := isClause_where_ident PrecTables.code inertBoundary_code l1 l2 ['x']
+  have hl : IsClause PrecTables.code 4 [⟨l3, .kw .limit⟩, ⟨l4, .int 5⟩] (.limit (asUsize 5)) :=
+    ⟨(isClause_limit PrecTables.code l3 l4 5).head,
+     fun fuel c tail _ hb hf => (isClause_limit PrecTables.code l3 l4 5).turn fuel c tail (by omega) hb hf⟩
+  exact clause_order_invariance_partial PrecTables.code 4 _ _ rfl rfl
+    [(_, .filter (.column ⟨0, 0⟩ ['x'])), (_, .limit (asUsize 5))] [(_, .limit (asUsize 5)), (_, .filter (.column ⟨0, 0⟩ ['x']))]
+    (by simp) (by simp; exact List.Perm.swap _ _ _)
+    (by intro p hp; simp at hp; rcases hp with rfl | rfl; exact hw; exact hl)
+    (by intro p hp; simp at hp; rcases hp with rfl | rfl; exact hl; exact hw)
+    (by simp [ClauseVal.kind]) 6 (by simp)
 
 end Sqlgrep.Props.C20Parse
